@@ -78,6 +78,11 @@ func c16Run(c *runner.Ctx) {
 			if gotm != exp {
 				c.Violate("merge-add", fmt.Sprintf("CollectionStats.Merge is not component-wise addition: got %+v expected %+v", gotm, exp), desc())
 			}
+			// the returned object belongs to the caller: merging other statistics INTO it must not change the segment's answer
+			if held, _ := sg.S.CollectionStats(f); held != nil {
+				held.Merge(cs2)
+				held.Merge(cs)
+			}
 			cs3, _ := sg.S.CollectionStats(f)
 			if cs3.TotalDocumentCount() != want.Total || cs3.DocumentCount() != want.Docs || cs3.SumTotalTermFrequency() != want.SumTTF {
 				c.Violate("merge-aliasing", fmt.Sprintf("CollectionStats(%q) changed after Merge was called on an earlier result", f), desc())
